@@ -253,7 +253,7 @@ fn c10_jobs(thorough: bool) -> Vec<Job> {
 fn c14_jobs(thorough: bool) -> Vec<Job> {
     let mut out = vec![];
     let hk = |n: usize| c14::HOOKS[..n].to_vec();
-    let g = |name: &str, admin: Option<u8>, initial: Vec<(u8, u64)>, n: u8, weights: Vec<u64>, removes: Vec<Vec<u8>>, full: Vec<u8>, hooks: Vec<&'static str>, blocks: u64| {
+    let g = |name: &str, admin: Option<u8>, initial: Vec<(u8, u64)>, n: u8, weights: Vec<u64>, removes: Vec<Vec<u8>>, full: Vec<u8>, n_callers: u8, hooks: Vec<&'static str>, blocks: u64| {
         Job::G14(
             c14::GroupAdmin {
                 cfg: c14::GroupCfg {
@@ -263,6 +263,7 @@ fn c14_jobs(thorough: bool) -> Vec<Job> {
                     add_lists: c09::add_lists(n, 2, &weights),
                     remove_lists: removes,
                     full_callers: full,
+                    n_callers,
                     hooks,
                     hmax: H0 + blocks - 1,
                 },
@@ -279,23 +280,24 @@ fn c14_jobs(thorough: bool) -> Vec<Job> {
         r
     };
     if thorough {
-        out.push(g("C14/group/admin AD/init[]/members{A,B,C}/weights{0,1,2}/3 hooks/2 blocks", Some(0), vec![], 3, vec![0, 1, 2], rem3(), vec![0, 1, 2], hk(3), 2));
-        out.push(g("C14/group/admin AD/init[A:1,B:2]/members{A,B,C}/weights{0,1,2}/2 hooks/3 blocks", Some(0), vec![(0, 1), (1, 2)], 3, vec![0, 1, 2], rem3(), vec![0, 1], hk(2), 3));
-        out.push(g("C14/group/no admin/init[A:1,B:2]/members{A,B}/weights{0,1,2}/3 hooks/2 blocks", None, vec![(0, 1), (1, 2)], 2, vec![0, 1, 2], rem2(), vec![0, 1, 2], hk(3), 2));
+        out.push(g("C14/group/admin AD/init[]/members{A,B,C}/weights{0,1,2}/3 hooks/2 blocks", Some(0), vec![], 3, vec![0, 1, 2], rem3(), vec![0, 1, 2], 3, hk(3), 2));
+        out.push(g("C14/group/admin AD/init[A:1,B:2]/members{A,B,C}/weights{0,1,2}/2 hooks/3 blocks", Some(0), vec![(0, 1), (1, 2)], 3, vec![0, 1, 2], rem3(), vec![0, 1], 3, hk(2), 3));
+        out.push(g("C14/group/no admin/init[A:1,B:2]/members{A,B}/weights{0,1,2}/3 hooks/2 blocks", None, vec![(0, 1), (1, 2)], 2, vec![0, 1, 2], rem2(), vec![0, 1, 2], 3, hk(3), 2));
     }
     // (the quick configurations are part of the thorough tier too)
-    out.push(g("C14/group/admin AD/init[]/members{A,B,C}/weights{0,1,2}/2 hooks/2 blocks", Some(0), vec![], 3, vec![0, 1, 2], rem3(), vec![0, 1], hk(2), 2));
-    out.push(g("C14/group/admin AD/init[A:1,B:2]/members{A,B}/weights{0,1,2}/2 hooks/2 blocks", Some(0), vec![(0, 1), (1, 2)], 2, vec![0, 1, 2], rem2(), vec![0, 1, 2], hk(2), 2));
-    out.push(g("C14/group/no admin/init[A:1,B:2]/members{A,B}/weights{0,1,2}/2 hooks/2 blocks", None, vec![(0, 1), (1, 2)], 2, vec![0, 1, 2], rem2(), vec![0, 1, 2], hk(2), 2));
+    out.push(g("C14/group/admin AD/init[]/members{A,B,C}/weights{0,1,2}/2 hooks/2 blocks", Some(0), vec![], 3, vec![0, 1, 2], rem3(), vec![0, 1], 3, hk(2), 2));
+    out.push(g("C14/group/admin AD/init[A:1,B:2]/members{A,B}/weights{0,1,2}/callers AD,AD2,X and the members A,B/2 hooks/2 blocks", Some(0), vec![(0, 1), (1, 2)], 2, vec![0, 1, 2], rem2(), vec![0, 1, 2], 5, hk(2), 2));
+    out.push(g("C14/group/no admin/init[A:1,B:2]/members{A,B}/weights{0,1,2}/callers AD,AD2,X and the members A,B/2 hooks/2 blocks", None, vec![(0, 1), (1, 2)], 2, vec![0, 1, 2], rem2(), vec![0, 1, 2], 5, hk(2), 2));
     // the admins themselves are offered as hook addresses: a governing contract that also listens
-    out.push(g("C14/group/admin AD/init[A:1]/members{A,B}/weights{0,1,2}/hooks{H1,AD,AD2}/2 blocks", Some(0), vec![(0, 1)], 2, vec![0, 1, 2], rem2(), vec![0, 1], vec!["H1", "AD", "AD2"], 2));
-    let s = |admin: Option<u8>, tpw: u128, mb: u128, funds: Vec<u128>, amounts: Vec<u128>, hooks: Vec<&'static str>, blocks: u64| {
+    out.push(g("C14/group/admin AD/init[A:1]/members{A,B}/weights{0,1,2}/hooks{H1,AD,AD2}/2 blocks", Some(0), vec![(0, 1)], 2, vec![0, 1, 2], rem2(), vec![0, 1], 3, vec!["H1", "AD", "AD2"], 2));
+    let s = |admin: Option<u8>, tpw: u128, mb: u128, funds: Vec<u128>, amounts: Vec<u128>, hooks: Vec<&'static str>, blocks: u64, cw20: bool| {
         let hooks_name = if hooks.iter().all(|h| c14::HOOKS.contains(h)) { format!("{} hooks", hooks.len()) } else { format!("hooks{:?}", hooks) };
         Job::S14(
             c14::StakeAdmin {
                 cfg: c14::StakeCfg {
                     name: format!(
-                        "C14/stake/{}/tokens_per_weight {tpw}/min_bond {mb}/funds {:?}/{hooks_name}/{blocks} blocks",
+                        "C14/stake/{}{}/tokens_per_weight {tpw}/min_bond {mb}/funds {:?}/{hooks_name}/{blocks} blocks",
+                        if cw20 { "cw20 token, dispatched/" } else { "" },
                         if admin.is_some() { "admin AD" } else { "no admin" },
                         funds
                     ),
@@ -304,6 +306,7 @@ fn c14_jobs(thorough: bool) -> Vec<Job> {
                     min_bond: mb,
                     funds,
                     amounts,
+                    cw20,
                     hooks,
                     hmax: H0 + blocks - 1,
                 },
@@ -312,16 +315,18 @@ fn c14_jobs(thorough: bool) -> Vec<Job> {
         )
     };
     if thorough {
-        out.push(s(Some(0), 1, 1, vec![4, 3], vec![1, 2, 3], hk(3), 2));
-        out.push(s(Some(0), 2, 2, vec![4, 3], vec![1, 2, 3], hk(3), 2));
-        out.push(s(Some(0), 3, 2, vec![5, 3], vec![1, 2, 3], hk(2), 3));
+        out.push(s(Some(0), 1, 1, vec![4, 3], vec![1, 2, 3], hk(3), 2, false));
+        out.push(s(Some(0), 2, 2, vec![4, 3], vec![1, 2, 3], hk(3), 2, false));
+        out.push(s(Some(0), 3, 2, vec![5, 3], vec![1, 2, 3], hk(2), 3, false));
     }
-    out.push(s(Some(0), 1, 1, vec![3, 2], vec![1, 2, 3], hk(2), 2));
-    out.push(s(Some(0), 2, 2, vec![4, 2], vec![1, 2, 3], hk(2), 2));
-    out.push(s(Some(0), 2, 3, vec![4, 2], vec![1, 2], hk(2), 2));
-    out.push(s(None, 2, 1, vec![3, 2], vec![1, 2], hk(2), 1));
+    out.push(s(Some(0), 1, 1, vec![3, 2], vec![1, 2, 3], hk(2), 2, false));
+    out.push(s(Some(0), 2, 2, vec![4, 2], vec![1, 2, 3], hk(2), 2, false));
+    out.push(s(Some(0), 2, 3, vec![4, 2], vec![1, 2], hk(2), 2, false));
+    out.push(s(None, 2, 1, vec![3, 2], vec![1, 2], hk(2), 1, false));
     // tokens_per_weight above min_bond: members with weight 0 come and go; a staker is also a hook
-    out.push(s(Some(0), 3, 1, vec![3, 2], vec![1, 2], vec!["H1", "U1"], 2));
+    out.push(s(Some(0), 3, 1, vec![3, 2], vec![1, 2], vec!["H1", "U1"], 2, false));
+    // cw20 stake token: bonding arrives through the token's Send -> Receive, everything is dispatched
+    out.push(s(Some(0), 2, 1, vec![3, 2], vec![1, 2], hk(2), 2, true));
     out
 }
 
@@ -347,7 +352,7 @@ fn describe(prop: &str) -> (&'static str, &'static str, &'static str) {
             "closed configurations (finite funds, capped clock, zero-unbond offered once per pending zero claim) run to FIXPOINT; edge configurations to the stated depth",
         ),
         "C14" => (
-            "cw4-group: UpdateAdmin{None|AD|AD2}, AddHook/RemoveHook{H1,H2(,H3)}, UpdateMembers (every add list of size <= 2 over members x weights, remove lists incl. overlap with add, a non-member, a repeated address; re-weight to the same value) by the admin, the other admin candidate and a stranger; AdvanceBlock. cw4-stake (native denom): the same admin/hook calls plus Bond/Unbond by two users.",
+            "cw4-group: UpdateAdmin{None|AD|AD2}, AddHook/RemoveHook{H1,H2(,H3)}, UpdateMembers (every add list of size <= 2 over members x weights, remove lists incl. overlap with add, a non-member, a repeated address; re-weight to the same value) by the admin, the other admin candidate, a stranger and (in two configurations) the members A and B themselves, incl. removing themselves; hook addresses that are the admins themselves; AdvanceBlock. cw4-stake: the same admin/hook calls plus Bond/Unbond by two users; native denom (response messages observed, not dispatched) and one configuration with a real cw20-base stake token where Send{Bond} -> Receive and every hook message are dispatched by the kernel to sink contracts and the notifications are read from the dispatch trace.",
             "reference {admin, hooks, members} stepped on accepted calls of the reference admin. A call by anyone else, and every call once the admin is None, leaves the Admin, Hooks and (cw4-group) ListMembers queries unchanged; after an admin's call they equal the reference. Every accepted call whose effect changes some weight returns exactly one member_changed_hook message per hook registered at that time; every notification goes to a registered hook, carries no funds, names only addresses the call listed (the bonding sender for cw4-stake); folding its diffs per address in order: first old == weight before the call, each new == next old, last new == weight after the call; every address whose weight changed has an entry. cw4-stake: a bond/unbond that changes no weight sends no notification.",
             "all configurations run to FIXPOINT (single block or two blocks; finite weights, hooks, admins, funds)",
         ),
